@@ -9,7 +9,7 @@
    comparison to the caller.  The theorems below say what that returned tag is. *)
 From Coq Require Import List NArith Arith Bool Lia.
 From GmsmVerif Require Import Lib.Outcome SM4.SM4Spec SM4.ModesSpec SM4.ModesProofs SM4.GCMSpec SM4.GCMField SM4.GCMModel
-  SM4.GCMProofs SM4.GCMProofs2 SM4.GCMProofs3 SM4.ModesModel SM4.GCMMem SM4.GCMMemProofs Gen.SM4Consts SM4.SM4Consts.
+  SM4.GCMProofs SM4.GCMProofs2 SM4.GCMProofs3 SM4.ModesModel SM4.GCMMem SM4.GCMMemProofs Gen.SM4Consts SM4.SM4ConstsBlock SM4.SM4ConstsGCM.
 Import ListNotations.
 Local Open Scope nat_scope.
 
